@@ -151,7 +151,7 @@ class Setup:
         self.standalone = standalone
         self.mps = rng.choice([8, 16, 32, 64])
         self.variant = rng.choice(["block", "distributed", "mux"])
-        self.default = (not standalone) and self.variant != "mux" and rng.random() < 0.2
+        self.default = (not standalone) and self.variant != "mux" and rng.random() < 0.3
         self.runtime = set()
         if self.default:
             coll = default_collection()
@@ -543,10 +543,7 @@ def run_device(rng, tier, res, setup):
                 got = "nothing" if r["kind"] == "timeout" else bytes(r["pkt"].data).hex()[:96]
                 vk = variant_of(key)
                 # ---- classifier: history first (narrow stimulus patterns), then content
-                if setup.variant == "mux" and key == (3, 0) and payload is not None and len(payload) <= 4 and offset == 0:
-                    # both sub-handlers own a (STRING, 0) descriptor: the user's and the automatically added 4-byte one
-                    mech = "mux_string0_answered_by_automatic_language_descriptor"
-                elif hist["stale_ack_consumed"]:
+                if hist["stale_ack_consumed"]:
                     # the ACK of the final packet of an earlier transfer was lost, the host went on (status stage, new SETUP),
                     # then an ACK for somebody else went by before the first IN of this transfer
                     mech = "offset_advanced_by_foreign_ack_after_lost_final_ack_of_earlier_transfer"
@@ -558,6 +555,9 @@ def run_device(rng, tier, res, setup):
                 elif (r["kind"] == "handshake" and r["pid"] == U.STALL and setup.variant == "mux" and key not in setup.runtime
                       and prev_started in setup.runtime and offset == 0):
                     mech = "mux_rom_descriptor_stalled_after_runtime_descriptor_request"
+                elif setup.variant == "mux" and key == (3, 0) and payload is not None and len(payload) <= 4 and offset == 0:
+                    # both sub-handlers own a (STRING, 0) descriptor: the user's and the automatically added 4-byte one
+                    mech = "mux_string0_answered_by_automatic_language_descriptor"
                 elif r["kind"] == "timeout":
                     mech = "no_response_to_in" if len(chunk) else "%s_no_zlp_after_exact_multiple_no_response" % vk
                 elif r["kind"] == "handshake" and r["pid"] == U.STALL:
@@ -597,7 +597,7 @@ def run_device(rng, tier, res, setup):
             #  wrong even if the retried packet happened to look right, e.g. a one-packet descriptor that restarts)
             lost_before = False
             # decide whether the host's ACK reaches the device
-            lose = scenario.startswith("lost_ack") and rng.random() < 0.45
+            lose = scenario.startswith("lost_ack") and rng.random() < (0.6 if scenario == "lost_ack_foreign" else 0.45)
             final = len(payload) < mps or offset + len(payload) >= wlength
             if scenario == "lost_final_ack" and final:
                 # the host got the packet and ACKs, but the ACK never reaches the device; the host goes on to the status stage
@@ -615,7 +615,7 @@ def run_device(rng, tier, res, setup):
                 if scenario == "lost_ack_foreign":
                     kinds = ["foreign_in_ack", "foreign_in_ack", "foreign_out", "sof"]
                     if second_ep:
-                        kinds = ["foreign_in_ack", "foreign_out", "sof", "second_ep_in_ack", "second_ep_in_ack"]
+                        kinds = ["foreign_in_ack", "foreign_in_ack", "foreign_out", "sof", "second_ep_in_ack", "second_ep_in_ack"]
                     k = rng.choice(kinds)
                     if k == "foreign_in_ack":
                         res.bin("foreign_ack_between_retries")
